@@ -224,3 +224,24 @@ impl Layout {
         }
     }
 }
+
+#[cfg(anydb_verif)]
+impl Layout {
+    /// Verification hook: extents freed but not yet reusable (promoted by the next flush).
+    pub fn verif_pending_holes(&self) -> &BTreeMap<usize, usize> {
+        &self.pending_holes
+    }
+
+    /// Verification hook: extents reserved for an in-flight relocation.
+    pub fn verif_start_to_reserved(&self) -> &BTreeMap<usize, usize> {
+        &self.start_to_reserved
+    }
+
+    /// Verification hook: size -> starts index, in its internal order.
+    pub fn verif_hole_to_starts(&self) -> Vec<(usize, Vec<usize>)> {
+        self.hole_to_starts
+            .iter()
+            .map(|(size, starts)| (*size, starts.to_vec()))
+            .collect()
+    }
+}
